@@ -76,7 +76,8 @@ pub const SDT_SINK_MAX: usize = 4096;
 
 /// Serialise `a` through sink kind `which`, returning the delivered byte stream.
 fn deliver(a: &dyn Aml, which: u64, cx: &mut Cx) -> Result<Vec<u8>, Caught> {
-    match which % SINK_KINDS {
+    // kind 4 comes in two flavours (which = 4 and which = 12): PackageBuilder::new() / ::default()
+    match (which & 7) % SINK_KINDS {
         0 => catch(|| to_vec(a)),
         1 => catch(|| {
             let mut s = ByteOnly::default();
@@ -104,7 +105,8 @@ fn deliver(a: &dyn Aml, which: u64, cx: &mut Cx) -> Result<Vec<u8>, Caught> {
         }),
         _ => catch(|| {
             // the crate's package builder used as the receiving sink
-            let mut pb = aml::PackageBuilder::new();
+            // either public way of making one
+            let mut pb = if which & 8 == 0 { aml::PackageBuilder::new() } else { aml::PackageBuilder::default() };
             a.to_aml_bytes(&mut pb);
             let all = to_vec(&pb);
             // PackageOp, PkgLength (1..4 bytes by its own lead byte), element count, then the stream
@@ -124,9 +126,9 @@ pub fn c14_object(a: &dyn Aml, raw: Option<&[u8]>, reference: &[u8], what: K, cx
     let kinds: &[u64] = if reference.len() > (1 << 20) {
         &[0, 1, 2]
     } else if reference.len() > SDT_SINK_MAX {
-        &[0, 1, 2, 4]
+        &[0, 1, 2, 4, 12]
     } else {
-        &[0, 1, 2, 3, 4]
+        &[0, 1, 2, 3, 4, 12]
     };
     for &w in kinds {
         cx.cover("c14.object_sink_pairs", (what as u64) << 8 | w);
@@ -208,7 +210,7 @@ pub fn c14_object(a: &dyn Aml, raw: Option<&[u8]>, reference: &[u8], what: K, cx
     }
     if reference.len() <= (1 << 20) {
         if let Ok((direct, bytewise)) = catch(|| {
-            let mut p1 = aml::PackageBuilder::new();
+            let mut p1 = aml::PackageBuilder::default();
             a.to_aml_bytes(&mut p1);
             let mut p2 = aml::PackageBuilder::new();
             for b in reference {
@@ -1308,8 +1310,49 @@ fn fadt_apply(b: fadt::FADTBuilder, op: &Op) -> fadt::FADTBuilder {
         K::FaAcpiEnable => b.acpi_enable(),
         K::FaAcpiDisable => b.acpi_disable(),
         K::FaGpe => b.gpe_info(op.arg(0) as u32, op.arg(1) as u32, op.arg(2) as u8, op.arg(3) as u8, op.arg(4) as u8),
+        K::FaPoke => fadt_poke(b, op),
         _ => b,
     }
+}
+
+/// number of public FADTBuilder fields `FaPoke` can write directly (the builder has no method for them)
+pub const FADT_POKE_FIELDS: u64 = 12;
+
+/// (offset, width) in the FADT image of the public field `FaPoke` index i writes — ACPI 6.5 table 5.9
+pub fn fadt_poke_range(i: u64) -> (usize, usize) {
+    match i % FADT_POKE_FIELDS {
+        0 => (116, 12), // RESET_REG
+        1 => (128, 1),  // RESET_VALUE
+        2 => (129, 2),  // ARM_BOOT_ARCH
+        3 => (46, 2),   // SCI_INT
+        4 => (48, 4),   // SMI_CMD
+        5 => (109, 2),  // IAPC_BOOT_ARCH
+        6 => (244, 12), // SLEEP_CONTROL_REG
+        7 => (256, 12), // SLEEP_STATUS_REG
+        8 => (268, 8),  // Hypervisor Vendor Identity
+        9 => (54, 1),   // S4BIOS_REQ
+        10 => (96, 2),  // P_LVL2_LAT
+        _ => (108, 1),  // CENTURY
+    }
+}
+
+fn fadt_poke(mut b: fadt::FADTBuilder, op: &Op) -> fadt::FADTBuilder {
+    let v = op.arg(1);
+    match op.arg(0) % FADT_POKE_FIELDS {
+        0 => b.reset_reg = build::gas_at(op, 1),
+        1 => b.reset_value = v as u8,
+        2 => b.arm_boot_arch = (v as u16).into(),
+        3 => b.sci_int = (v as u16).into(),
+        4 => b.smi_cmd = (v as u32).into(),
+        5 => b.iapc_boot_arch = (v as u16).into(),
+        6 => b.sleep_control_reg = build::gas_at(op, 1),
+        7 => b.sleep_status_reg = build::gas_at(op, 1),
+        8 => b.hypervisor_vendor_identity = v.into(),
+        9 => b.s4bios_req = v as u8,
+        10 => b.p_lvl2_lat = (v as u16).into(),
+        _ => b.century = v as u8,
+    }
+    b
 }
 
 fn fadt_build(root: &Op) -> Option<Vec<u8>> {
@@ -1329,7 +1372,7 @@ impl Subject for FadtSubj {
         self.b.finalize().to_aml_bytes(sink)
     }
     fn apply(&mut self, op: &Op, _cx: &mut Cx) -> Applied {
-        if !matches!(op.k, K::FaFlag | K::FaProfile | K::FaDsdt32 | K::FaDsdt64 | K::FaFw32 | K::FaFw64 | K::FaAcpiEnable | K::FaAcpiDisable | K::FaGpe) {
+        if !matches!(op.k, K::FaFlag | K::FaProfile | K::FaDsdt32 | K::FaDsdt64 | K::FaFw32 | K::FaFw64 | K::FaAcpiEnable | K::FaAcpiDisable | K::FaGpe | K::FaPoke) {
             return Applied::ok();
         }
         let b = self.b;
@@ -1384,7 +1427,34 @@ impl Subject for ConstSubj {
             _ => Some(4),
         }
     }
-    fn apply(&mut self, _op: &Op, _cx: &mut Cx) -> Applied {
+    fn apply(&mut self, op: &Op, cx: &mut Cx) -> Applied {
+        // Direct writes to the public fields of the RSDP and FACS. They are only generated in the
+        // C14 batches: a caller who overwrites revision or length breaks C01/C02 by their own hand,
+        // but the raw form must still equal the serialised form and every sink must still agree.
+        match (&mut self.0, op.k) {
+            (ConstTab::Rsdp(r), K::RsdpPoke) => {
+                cx.probe("c14.public_field_writes");
+                match op.arg(0) % 5 {
+                    0 => r.revision = op.arg(1) as u8,
+                    1 => r.xsdt_addr = op.arg(1).into(),
+                    2 => r.length = (op.arg(1) as u32).into(),
+                    3 => r.oem_id = op.arr::<6>(0),
+                    _ => r.extended_checksum = op.arg(1) as u8,
+                }
+            }
+            (ConstTab::Facs(f), K::FacsPoke) => {
+                cx.probe("c14.public_field_writes");
+                match op.arg(0) % 6 {
+                    0 => f.hardware_signature = (op.arg(1) as u32).into(),
+                    1 => f.waking = (op.arg(1) as u32).into(),
+                    2 => f.lock = (op.arg(1) as u32).into(),
+                    3 => f.flags = (op.arg(1) as u32).into(),
+                    4 => f.x_waking = op.arg(1).into(),
+                    _ => f.version = op.arg(1) as u8,
+                }
+            }
+            _ => {}
+        }
         Applied::ok()
     }
     fn check(&self, img: &[u8], cx: &mut Cx) {
